@@ -167,6 +167,10 @@ def make_case(spec):
     """build the case and note every path on which convert() sent text to standard output: the PPM tools write the picture
     to standard output when no output file is named, so anything else printed there ends up inside the picture"""
     case = _make_case(spec)
+    paths_ = getattr(case, "paths", [])
+    if paths_ and all(p["status"] == "unwind" for p in paths_):
+        # every path left the unwinding bound: nothing would be decided for this case, and silently so
+        D.PENDING_GAPS.append(f"{case.name}: all {len(paths_)} paths end beyond the unwinding bound ({paths_[0]['detail'][:60]}): the case decides nothing")
     if getattr(case, "decoder", "") != "veftopng":
         for p in getattr(case, "paths", []):
             if p.get("stdout"):
